@@ -210,6 +210,12 @@ impl<'a> Hist<'a> {
         // order deletions and insertions so that max(rowid)+1 reproduces the slots the real pull assigned
         let mut live: Vec<i64> = before.iter().map(|r| r.rowid).collect();
         for r in news {
+            // a row that was removed and written again in the same pull: the removal comes first
+            if let Some(i) = dels.iter().position(|d| d.1 == r.id) {
+                let (rid, id) = dels.remove(i);
+                live.retain(|x| *x != rid);
+                ops.push(format!("FSyncDel {}", gn(id)));
+            }
             loop {
                 let next = live.iter().cloned().max().unwrap_or(0).max(0) + 1;
                 if next > r.rowid {
